@@ -285,8 +285,25 @@ def ob_tagw(chk, w):
                 ids.add(forms.show(nz.form(dict(v[2])["0"])))
         for e, o in C.all_calls(outs, lambda e: (e[2] or "").endswith("Vec::push")):
             pushes += 1
-        ok = len(ids) == 1 and re.fullmatch(r"<core::iter::adapters::enumerate::Enumerate as core::iter::traits::iterator::Iterator>::next\(&_\d+\)@Some\.0\.0", list(ids)[0]) is not None and pushes == 2
-        detail = "ids=%s pushes per iteration=%d" % (sorted(ids), pushes)
+        # per path of one loop iteration: exactly one registration and two pushes (no path may skip a model:
+        # the ids are enumerate indexes, so a skipped push shifts every later id past its row)
+        ccf = cfgmod.cfg_of(cl)
+        cloops = ccf.natural_loops()
+        per_path = set()
+        for h in cloops:
+            pre_ = [o for o in ci.run(0, stop=[h]) if o.kind == "stop"]
+            if not pre_:
+                continue
+            n0_ = len(pre_[0].trace)
+            for o in ci.run(h, stop=set(ccf.blocks) - cloops[h], env=pre_[0].env, cons=pre_[0].cons, stop_at_entry_again=True, trace=pre_[0].trace):
+                if o.kind == "stop" and o.info == h:
+                    item = o.cons.get("ret:%d" % h)
+                    if item and item[2] == "Some":
+                        tr_ = o.trace[n0_:]
+                        per_path.add((sum(1 for e in tr_ if e[0] == "call" and (e[2] or "").endswith("HashMap::insert")),
+                                      sum(1 for e in tr_ if e[0] == "call" and (e[2] or "").endswith("Vec::push"))))
+        ok = len(ids) == 1 and re.fullmatch(r"<core::iter::adapters::enumerate::Enumerate as core::iter::traits::iterator::Iterator>::next\(&_\d+\)@Some\.0\.0", list(ids)[0]) is not None and per_path == {(1, 2)}
+        detail = "ids=%s (registrations, pushes) per loop path=%s" % (sorted(ids), sorted(per_path))
         chk.fn(cl.fn)
     chk.ob("R18.2", "TAGW:token-id=enumerate-index", ok, "Predictor::new does not assign token ids as the enumerate index while pushing exactly one char and one type tag model per token (%s)" % detail,
            site=C.site(cl) if cl else None, sample={"detail": detail})
